@@ -77,13 +77,15 @@ Definition ex_M : module := mk_module
         fld "arr" 17 8 (mk_ftype (RPre PUInt) (Some 16) [LConst 2; LConst 2]) None [];
         fld "x" 25 4 (mk_ftype (RPre PFloat) None []) None [];
         mk_field "v" true None None 0 0 (mk_ftype (RPre PUInt) None []) None [mk_attr "requires" false (AVBool false)] ]
-      [] [(RPre PUInt, Some 8); (REnum 0, None)] ].
+      [] [(RPre PUInt, Some 8); (REnum 0, None)] ]
+  ["cpp"; "xyz"] ["xyz"].
 
 (* the same with a 65-bit bits type *)
 Definition ex_M_bad : module := mk_module (m_attrs ex_M) (m_enums ex_M)
   [ mk_struct "Flags" false 1 [Some BLittle; None] None
       [ fld "f0" 0 1 (mk_ftype (RPre PFlag) None []) None [];
-        fld "u" 1 64 (mk_ftype (RPre PUInt) None []) None [] ] [] [] ].
+        fld "u" 1 64 (mk_ftype (RPre PUInt) None []) None [] ] [] [] ]
+  ["cpp"] [].
 
 (* harness: verdict of the mirror and the side condition of the theorem *)
 Definition run_layout2 (T : tables) (M : module) : bool * bool := (check_layout T M, units_okb M).
@@ -116,5 +118,34 @@ Definition lout_agrees (a b : lout) : bool :=
   | LModel v u bs, LExpect v' u' ob =>
       Bool.eqb v v' && Bool.eqb u u'
       && match ob with None => true | Some bs' => list_eqb (list_eqb optborder_eqb) bs bs' end
+  | _, _ => false
+  end.
+
+(* everything the front end derives from attributes: byte order per field, (maximum_bits,
+   is_signed) per enum, fixed size per structure *)
+Definition effective (M : module) : list (list (option border)) * list (Z * bool) * list (option Z) :=
+  (borders M, map (fun e => (enum_maxbits e, enum_is_signed e)) (m_enums M), map (fun s => match s_fixed_attr s with Some a => Some a | None => struct_fixed_size s end) (m_structs M)).
+
+Definition zb_eqb (a b : Z * bool) : bool := Z.eqb (fst a) (fst b) && Bool.eqb (snd a) (snd b).
+
+Inductive eout :=
+| EModel (v u : bool) (e : list (list (option border)) * list (Z * bool) * list (option Z))
+| EExpect (v u : bool) (e : option (list (list (option border)) * list (Z * bool) * list (option Z))).
+
+Definition run_layout4 (T : tables) (M : module) : eout :=
+  EModel (check_layout T M) (units_okb M)
+         (if check_all_attrs T M then effective M else ([], [], [])).
+
+Definition eout_agrees (a b : eout) : bool :=
+  match a, b with
+  | EModel v u e, EExpect v' u' oe =>
+      Bool.eqb v v' && Bool.eqb u u'
+      && match oe with
+         | None => true
+         | Some e' =>
+             list_eqb (list_eqb optborder_eqb) (fst (fst e)) (fst (fst e'))
+             && list_eqb zb_eqb (snd (fst e)) (snd (fst e'))
+             && list_eqb optz_eqb (snd e) (snd e')
+         end
   | _, _ => false
   end.
